@@ -52,7 +52,12 @@ fixpoint rounds of the analysis over names/collections, not over inputs.
   assumptions "n == 0", "n > 0", "the chunk just read is non-empty", "more than n bytes consumed"), 3 (reaching definitions
   of chunk / accumulator / returned value; give-back offset and truncation bound compared as polynomials over n,
   <bytes consumed>, <raw position>), 4 (length domain: trackers stand for the symbol <bytes consumed>).  Lemmas: L5
-  length-preserving wrappers, L6 trackers, L7 give-back.
+  length-preserving wrappers, L6 trackers, L7 give-back.  "give-back only after at least n bytes were consumed" (`_short_reachability`):
+  2 (the CFG of read() specialised under the named scenario "short" = n > 0 and fewer than n bytes consumed when the reads are over, in
+  its two sub-scenarios "read at / beyond the end: nothing consumed" and "1 <= <bytes consumed> < n"; the branch tests are evaluated
+  three-valued, a test of the chunk just read is free in the second sub-scenario - the data may end anywhere -, a test that is neither
+  decided nor free makes the paths through it undecided), 3 (`<tracker> ? n` / `<tracker> ? 0` decided as polynomials over n and
+  <bytes consumed>; single-definition flags followed).  Lemma: L12.  No length, n or file content is chosen.
 * R3 (rolling key): 1 (resolved utils.xor / read_nonce, `bind_args`), 3 (reaching definitions of the key operand inside /
   outside the decode loop, chunk provenance; read_nonce as cursor typestate from the symbol <raw position>), 2 (`all_paths_pass`:
   key updated on every iteration, after its use, before the next read), 6 (read size constant).  Lemmas: L1 in its complete-read
@@ -63,6 +68,12 @@ fixpoint rounds of the analysis over names/collections, not over inputs.
   exits), 3 (reaching definitions of the returned view; def-use provenance of the candidate collection; range arguments /
   counter init, step and bound as polynomials - the loop is read once), 5 (None / not None alternatives of the candidate),
   6 (marker constant compared with the reference value, default arguments of find_mz_offset).  Lemmas: L4, L8 scan coverage.
+  "nothing but the MZ validation rejects a candidate" (`_r4_only_validation_rejects`): 2 (CFG of the candidate loop: is there a way from
+  the start of an iteration to the next candidate / out of the loop that avoids the validation statement), 3 (def-use sources of the test
+  of the branch that goes round it: header-word attributes of the view - located by who writes them, the constructor's stores computed
+  from a read -, calls of iter_nonce_offsets, the loop variable that is not the candidate = the vote count; `len(<header word>)` is a
+  length, not content; no arithmetic is evaluated).  Sources of those three kinds: violated by L11 / the wording of the property ("via
+  the end-of-stub marker, the size field, or both"); any other test that goes round the validation: undecided.
 * R6 (state carried across calls): 1 (who-may-write / who-may-read of the instance attributes over all methods of the class: stores,
   augmented / item stores, in-place mutation vs loads on the read path; resolved `self.m()` callees; role "rolling key" = the
   attribute flows into a value returned by read_nonce() or into the key operand of the decode step), 3 (reaching definitions of
@@ -143,6 +154,11 @@ Lemmas / library model relied on (also listed in `rep.trusted_base`):
       without asking the underlying file where it ends (its own SEEK_END), or a SEEK_CUR target computed without its position
       (tell() / its own SEEK_CUR), differs from the required <anchor> + offset for some file.  Functions only know what they are
       handed (a call that is not handed the view / the file adds no source); module-level names carry no information about the file.
+  L12 what read() has consumed only grows while it runs (trackers are only added to, L6): if fewer than n bytes were consumed when the
+      reads are over, `<tracker> < n` held at every earlier test as well; with nothing consumed at all `<tracker> == 0 < n` for n > 0.  A
+      give-back (L7) executed in that scenario leaves the underlying file at <position before the reads> + n > <position before the reads>
+      + <bytes consumed> = the end of what is returned: tell() advances by more than len(result).  Both sub-scenarios are inside the
+      quantifier (read(n) beyond EOF; plaintexts of any length).
 """
 
 from __future__ import annotations
@@ -581,9 +597,12 @@ def run(ctx):
         "dominating branch edges); read() is checked for read accounting on its CFG specialised under the named assumptions "
         "n == 0 / n > 0 / non-empty chunk / more than n bytes consumed (every path returns exactly the bytes it consumed: "
         "either the whole decoded data, or a truncation preceded by a relative give-back seek of n - <bytes consumed>; n == 0 "
-        "consumes nothing); the rolling key chains on ciphertext (reaching definitions of the key operand, every-iteration / "
+        "consumes nothing; a give-back is not reachable on the CFG specialised to 'n > 0 and fewer than n bytes consumed' - at EOF / "
+        "when the data ends early it would leave the file beyond the bytes returned); the rolling key chains on ciphertext (reaching definitions of the key operand, every-iteration / "
         "after-use path conditions); detection returns a candidate only after the MZ validation and a rewind (dominance, "
-        "None-case analysis, def-use provenance of the candidate collection, scan range as polynomials); the cursor of the "
+        "None-case analysis, def-use provenance of the candidate collection, scan range as polynomials) and no candidate is turned away "
+        "before that validation on a test computed from its header words, the size-relation candidates or its vote count (a stage may be "
+        "located by the marker alone and its size word is not validated); the cursor of the "
         "underlying file is the only state carried from one call to the next - an attribute written outside the constructor and "
         "read back on the read path is either a memo of the constructor's data, or a cached rolling key that every movement of "
         "the underlying cursor resets or re-establishes (who-writes / who-reads over the methods of the class, CFG reachability "
@@ -602,6 +621,11 @@ def run(ctx):
     rep.not_decided = [
         "plaintext equality for all seek/read histories",
         "most_common ordering of candidates",
+        "tests that drop a candidate before the MZ validation and are computed from something else than its header words, the size-relation "
+        "candidates or the vote count (the candidate offset, the length of the file, how much of the header is there): undecided (R4); a test "
+        "inside a helper that the normaliser could not inline is not seen",
+        "give-back seeks of read() whose guard is neither decided under 'fewer than n bytes consumed' nor a test of the chunk just read, or that sit "
+        "behind a for-loop / exception handler: undecided (R2)",
         "short reads of the two header words in __init__ (a XorEncoded payload has them: premise of the property) and of the two words of a scan "
         "iteration of iter_nonce_offsets (the code breaks out of the scan on a short read; that check is not verified by R1): the span rules read "
         "`read(k)` as returning k bytes; short reads in read_nonce ARE decided (R7)",
@@ -635,6 +659,8 @@ def run(ctx):
         "lemma L6: an initially empty bytes accumulator / joined word list / write-only BytesIO / byte counter that receives every "
         "chunk exactly once measures the bytes consumed from the underlying file",
         "lemma L7: after consuming c bytes from p0, a relative seek by n - c (absolute: tell() + n - c) leaves the file at p0 + n",
+        "lemma L12: what read() has consumed only grows while it runs, so 'fewer than n bytes consumed when the reads are over' implies <tracker> < n "
+        "at every earlier test; a give-back executed then leaves the file at <start> + n, beyond the <start> + <consumed> bytes returned",
         "lemma L8: range(0, m, 1), or a counter from 0 stepped by exactly 1 and used under i < m, visits every integer 0 .. m - 1",
         "lemma L9: a whole word read at the cursor is the rolling key of the position right after that read, read_nonce() returns the key "
         "of the position it is called at, and neither is the key of any other position (arbitrary file contents): a key cached in an "
@@ -1839,6 +1865,157 @@ def r2(ctx):
         ctx.ob("R2", "CURSOR", f, "give-back is followed by the truncation", ok,
                "after giving back n - <bytes consumed> the result is cut to n bytes" if ok else
                "bytes are given back to the underlying file but still returned: the position advances by less than what is returned", g)
+    # ... and only when there is something to give back: the give-back leaves the file at <position before the reads> + n (L7), which is
+    # where the returned bytes end only if at least n bytes were consumed.  Named scenario "short": n > 0 and fewer than n bytes consumed
+    # by the time the reads are over (the data ends before n bytes, or the read starts at / beyond the end - both are in the quantifier of
+    # the property).  What was consumed only grows while read() runs, so under "short" every test `<tracker> ? n` made at any time has the
+    # outcome of `<bytes consumed> < n` (lemma L12); the outcome of a test of the chunk just read (EOF test) is free - the file may end
+    # anywhere.  A give-back that a path of decided / free tests reaches in that scenario moves the file beyond the bytes returned.
+    for g, gn in zip(givebacks, gnodes):
+        v, why = _short_reachability(ctx, R, assume, N, gn)
+        _emit(ctx, "R2", "CURSOR", f, "give-back only after at least n bytes were consumed", v,
+              "with n > 0 and fewer than n bytes consumed (data ends early / read at EOF) the give-back is not executed",
+              "the give-back is also executed when fewer than n bytes were consumed (n > 0, the data ends before n bytes / the read starts at or beyond the end): it "
+              "leaves the underlying file at <position before the reads> + n, beyond the bytes that are returned - tell() advances by more than len(result), every "
+              f"further read at EOF moves the position on ({why})", g,
+              f"whether the give-back is executed when fewer than n bytes were consumed depends on a test that is not understood ({why})")
+
+
+def _short_reachability(ctx, R: "_Read", assume: Dict[str, bool], N: SymPoly, target) -> Tuple[str, str]:
+    """'ok' | 'bad' | 'unknown': can CFG node `target` of read() be reached in the scenario "short": n > 0 and fewer than n bytes
+    consumed when the reads are over?  Two named sub-scenarios, one walk of the CFG each (device 2: three-valued evaluation of the
+    branch tests under the scenario, infeasible edges removed; comparisons decided as polynomials over n and <bytes consumed>, device 3):
+      "at EOF"    nothing is consumed (every read of the underlying file returns b''): tests of the chunk just read and `<tracker> ? 0`
+                  are decided, `<tracker> ? n` reads 0 < n;
+      "some data" 1 <= <bytes consumed> < n: `<tracker> ? n` reads `<` at any time (lemma L12), `<tracker> ? 0` reads `>` once the reads
+                  are over, tests of the chunk just read are free (the data may end anywhere); the path must pass an update of a tracker.
+    A test that is neither decided nor free makes the paths through it `unknown`; so do loops other than the read loop's own `while`
+    and exception handlers."""
+    import copy
+
+    f, fn, cfg, fv, n = R.f, R.fn, R.cfg, R.fv, R.n
+    ints = frozenset({n})
+    cvars = set()
+    for st in statements(fn):
+        if isinstance(st, ast.Assign) and any(strip_cast(st.value) is r for r in R.reads):
+            cvars |= {t.id for t in st.targets if isinstance(t, ast.Name)}
+    rnodes = [cfg.node(fv.stmt_of(r)) for r in R.reads if cfg.has(fv.stmt_of(r))]
+    updates = [cfg.node(u) for t in R.trk.values() for u, _r in t["upd"] if cfg.has(u)]
+    lt = {ast.Gt: False, ast.GtE: False, ast.NotEq: True, ast.Lt: True, ast.LtE: True, ast.Eq: False}
+    gt = {ast.Gt: True, ast.GtE: True, ast.NotEq: True, ast.Lt: False, ast.LtE: False, ast.Eq: False}
+    eq = {ast.Gt: False, ast.GtE: True, ast.NotEq: False, ast.Lt: False, ast.LtE: True, ast.Eq: True}
+    mirror = {ast.Lt: ast.Gt, ast.LtE: ast.GtE, ast.Gt: ast.Lt, ast.GtE: ast.LtE}
+    empty = {}
+    for c in cvars:
+        empty.update({c: False, f"len({c}) == 0": True, f"len({c}) != 0": False, f"len({c}) > 0": False, f"len({c}) >= 1": False, f"len({c}) < 1": True,
+                      f"{c} == b''": True, f"{c} != b''": False, f"{c} is None": False})
+
+    def free(t) -> bool:
+        names = {x.id for x in ast.walk(t) if isinstance(x, ast.Name)}
+        return bool(names & cvars) and names <= (cvars | {"len", "bytes", "bool"}) and not any(isinstance(x, ast.Attribute) for x in ast.walk(t))
+
+    def walk(some: bool) -> Tuple[str, str]:
+        asm = dict(assume) if some else {**assume, **empty}
+
+        def over(at) -> bool:
+            nd = cfg.node(at) if cfg.has(at) else None
+            return nd is not None and not any(cfg.reaches(nd, rn) or nd == rn for rn in rnodes)
+
+        def sign(d: SymPoly, k, at):
+            """outcome of `d <k> 0` for d = +-(<bytes consumed> - n) / +-<bytes consumed>"""
+            if d == N - CONSUMED or d == -CONSUMED:
+                d, k = -d, mirror.get(k, k)
+            if d == CONSUMED - N:
+                return lt.get(k)
+            if d == CONSUMED:
+                return (gt.get(k) if over(at) else None) if some else eq.get(k)
+            return None
+
+        def pair(l, op, r, at):
+            try:
+                v = tv_eval(ast.Compare(left=l, ops=[op], comparators=[r]), asm, ints)
+            except Exception:
+                v = None
+            if v is not None:
+                return v
+            a, b = _poly(ctx, f, l, R.special(at, set())), _poly(ctx, f, r, R.special(at, set()))
+            return None if a is None or b is None else sign(a - b, type(op), at)
+
+        def ev(t, at, depth=0):
+            """True | False | 'free' (a test of the chunk just read whose outcome the scenario leaves open) | None"""
+            if depth > 6:
+                return None
+            if isinstance(t, ast.Name) and t.id not in cvars and t.id not in params(fn) and t.id not in R.trk:
+                o = origin(fn, t)
+                if o is not t and not isinstance(o, ast.Name):
+                    return ev(o, at, depth + 1)
+            if isinstance(t, ast.UnaryOp) and isinstance(t.op, ast.Not):
+                v = ev(t.operand, at, depth + 1)
+                return v if v in (None, "free") else (not v)
+            if isinstance(t, ast.BoolOp):
+                vs = [ev(x, at, depth + 1) for x in t.values]
+                absorb = isinstance(t.op, ast.Or)
+                if any(v is absorb for v in vs):
+                    return absorb
+                if all(v is (not absorb) for v in vs):
+                    return not absorb
+                return "free" if all(v is (not absorb) or v == "free" for v in vs) else None
+            v = tv_eval(t, asm, ints)
+            if v is not None:
+                return v
+            if isinstance(t, ast.Compare):
+                vs, l = [], t.left
+                for op, r in zip(t.ops, t.comparators):
+                    vs.append(pair(l, op, r, at))
+                    l = r
+                if any(x is False for x in vs):
+                    return False
+                if all(x is True for x in vs):
+                    return True
+            else:
+                # truthiness of a tracker / of its size: `<bytes consumed> != 0`
+                if isinstance(t, ast.Name) and t.id in R.trk and R.trk[t.id]["kind"] in ("bytes", "list"):
+                    return sign(CONSUMED, ast.NotEq, at)
+                p = _poly(ctx, f, t, R.special(at, set()))
+                if p is not None and (p == CONSUMED or p == -CONSUMED or p == CONSUMED - N or p == N - CONSUMED):
+                    return sign(p, ast.NotEq, at)
+            return "free" if free(t) else None
+
+        spec = copy.copy(cfg)
+        spec.g = cfg.g.copy()
+        spec._idom = None
+        spec._ipdom = None
+        open_: List[Tuple[tuple, str]] = []
+        for nd, st in cfg.stmt.items():
+            if isinstance(st, (ast.If, ast.While)):
+                v = ev(st.test, st)
+                if v is True or v is False:
+                    e = cfg.edge_node(st, "false" if v else "true")
+                    if spec.g.has_edge(nd, e):
+                        spec.g.remove_edge(nd, e)
+                elif v is None:
+                    open_.append((nd, f"`{src(st.test)[:60]}`"))
+            elif isinstance(st, (ast.For, ast.AsyncFor)):
+                open_.append((nd, f"the loop `for {src(st.target)} in {src(st.iter)[:40]}`"))
+            elif isinstance(st, ast.ExceptHandler):
+                open_.append((nd, "an exception handler"))
+        if not spec.reaches(ENTRY, target):
+            return "ok", ""
+        shut = [nd for nd, _w in open_]
+        name = "1 <= <bytes consumed> < n" if some else "read at / beyond the end: nothing consumed"
+        if some:
+            hit = any(u != target and spec.reaches(ENTRY, u, avoiding=shut) and spec.reaches(u, target, avoiding=shut) for u in updates)
+        else:
+            hit = spec.reaches(ENTRY, target, avoiding=shut + updates)
+        if hit:
+            path = [w.split(":", 1)[-1] for w in spec.witness_path(ENTRY, target, avoiding=shut) if w.startswith("L")][-3:]
+            return "bad", f"scenario `{name}`" + (": reached through " + " -> ".join(path) if path else "")
+        on_the_way = [w for nd, w in open_ if spec.reaches(ENTRY, nd) and spec.reaches(nd, target)]
+        return "unknown", f"scenario `{name}`: not understood: " + (", ".join(on_the_way[:3]) or "the order of updates and tests")
+
+    res = [walk(False), walk(True)]
+    v = _worst(x for x, _w in res)
+    return v, "; ".join(w for x, w in res if x == v and w)
 
 
 # ============================================================================================== R3: rolling key
@@ -3396,6 +3573,140 @@ def _r4_scan_range(ctx):
     _emit(ctx, "R4", "LOOP", ino, t, v, "every offset below maxrange is probed", f"the scan probes range({start}, {stop}, {step}); required range(0, maxrange, 1)", loop)
 
 
+_T_ONLY_MZ = "nothing but the MZ validation rejects a candidate"
+
+
+def _header_word_attrs(ctx) -> set:
+    """Attributes of the view in which the constructor keeps bytes it read from the underlying file (the header words: nonce and
+    size field), located by who writes them: stores of the constructor whose value is computed from a read of the file."""
+    try:
+        ctor = ctx.repo.func(f"{CLS}.__init__")
+    except Exception:
+        return set()
+    fn = ctor.node
+
+    def from_read(e, depth=0) -> bool:
+        if e is None or depth > 4:
+            return False
+        for x in ast.walk(e):
+            if isinstance(x, ast.Call) and isinstance(x.func, ast.Attribute) and x.func.attr in ("read", "readinto", "unpack", "unpack_from", "from_bytes"):
+                if x.func.attr == "read" or any(from_read(a, depth + 1) for a in x.args):
+                    return True
+            if isinstance(x, ast.Name) and x.id not in params(fn) and any(from_read(v, depth + 1) for _s, v in assignments_to(fn, x.id) if v is not None):
+                return True
+        return False
+
+    return {a for _st, a, v in _attr_stores(ctor) if v is not None and from_read(v)}
+
+
+def _r4_only_validation_rejects(ctx, f, lp, vstmts, builds):
+    """Detection works "via the end-of-stub marker, the size field, or both": a candidate offset may have been located by one method
+    only, and the header words at it are arbitrary (all nonces; the size word is not validated - a truncated / padded stage, L11).  So
+    the one thing that may reject a candidate is the check the property names - the decoded content starts with a PE image.  On the CFG
+    of the candidate loop (device 2): every way from the start of an iteration to the next candidate / out of the loop passes the MZ
+    validation, or the branch that goes round it is classified by the def-use sources of its test (device 3, no arithmetic evaluated):
+    computed from the content of the header words of the candidate view, from the size-relation candidates, or from the number of votes
+    -> violated (a stage located by the marker alone / with another size word / nonce is turned away before it is validated); other
+    tests (the candidate offset, the length of the file, lengths of what was read) -> undecided."""
+    from csverif.cfg import RAISE
+
+    fn, cfg, fv = f.node, ctx.cfg(f), FuncView.of(f.node)
+    header, start = cfg.node(lp), cfg.edge_node(lp, "iter")
+    vn = [cfg.node(st) for st in vstmts if cfg.has(st)]
+    rets = [cfg.node(r) for r in cfg.return_stmts()]
+    ends = [header, EXIT, RAISE]
+    bypass = [e for e in ends if cfg.reaches(start, e, avoiding=vn + rets + ([header] if e != header else []))]
+    if not bypass:
+        ctx.ob("R4", "LOOP", f, _T_ONLY_MZ, True, "every candidate that is tried is put to the MZ validation: no way round it to the next candidate / out of the loop", lp)
+        return
+    inside = {id(x) for x in ast.walk(lp)}
+    # the candidate: the loop variable handed to the constructor as nonce_offset
+    targets = {x.id for x in ast.walk(lp.target) if isinstance(x, ast.Name)}
+    cand = set()
+    try:
+        ctor = ctx.repo.func(f"{CLS}.__init__").node
+    except Exception:
+        ctor = None
+    for c in builds:
+        if ctor is not None and id(c) in inside and ctx.rs.resolve_call(f, c).kind == "class":
+            ps_ = params(ctor)
+            a = bind_args(c, ctor, skip_self=True).get(ps_[2]) if len(ps_) > 2 else None
+            nm, at_ = (_root(fn, a) if a is not None else None), fv.stmt_of(c)
+            for _hop in range(4):  # `found = offset; cls(fh, nonce_offset=found)`: the one definition that reaches the call
+                if nm is None or nm in targets or "." in nm:
+                    break
+                rd = reaching_defs(ctx, f, nm, at_)
+                if len(rd) != 1 or rd[0][1] is None:
+                    break
+                nm, at_ = _root(fn, rd[0][1]), rd[0][0]
+            if nm in targets:
+                cand.add(nm)
+    hdr = _header_word_attrs(ctx)
+
+    def classify(test, at) -> List[str]:
+        found: List[str] = []
+        seen: set = set()
+
+        def flow(e, at_, depth=0):
+            if e is None or depth > 8:
+                return
+            skip: set = set()
+            for x in ast.walk(e):
+                if id(x) in skip:
+                    continue
+                if isinstance(x, ast.Call) and dotted(x.func) == "len" and len(x.args) == 1:
+                    # a length is not content: `len(<header word>)` says how much of the header is there
+                    if isinstance(strip_cast(x.args[0]), ast.Attribute):
+                        skip |= {id(y) for y in ast.walk(x.args[0])}
+                    continue
+                if isinstance(x, ast.Call) and _resolves_to(ctx, f, x, "xordecode.iter_nonce_offsets"):
+                    found.append("the size-relation candidates (iter_nonce_offsets): a candidate located by the end-of-stub marker alone is turned away")
+                elif isinstance(x, ast.Attribute) and isinstance(x.ctx, ast.Load) and x.attr in hdr and not (isinstance(x.value, ast.Name) and x.value.id in ("cls",)):
+                    found.append(f"the content of the header word `{src(x)}` of the candidate view (nonce / size field are arbitrary: the size word is not validated - a stage located by the "
+                                 "end-of-stub marker whose size field does not describe the file, e.g. a truncated one, is turned away)")
+                elif isinstance(x, ast.Name) and isinstance(x.ctx, ast.Load) and x.id not in params(fn):
+                    if x.id in cand:
+                        continue
+                    if x.id in targets and cand:
+                        found.append(f"the number of votes `{x.id}` of the candidate: a candidate located by one method only is turned away")
+                        continue
+                    if (x.id, id(at_)) in seen:
+                        continue
+                    seen.add((x.id, id(at_)))
+                    for s_, v in reaching_defs(ctx, f, x.id, at_):
+                        if v is not None:
+                            flow(v, s_, depth + 1)
+                        elif isinstance(s_, ast.AugAssign):
+                            flow(s_.value, s_, depth + 1)
+                        elif isinstance(s_, ast.For) and s_ is not lp:
+                            flow(s_.iter, s_, depth + 1)
+
+        flow(test, at)
+        return found
+
+    bad: List[Tuple[ast.AST, str]] = []
+    for nd, st in cfg.stmt.items():
+        if not isinstance(st, (ast.If, ast.While)) or id(st) not in inside or nd in vn or not cfg.reaches(start, nd, avoiding=vn + rets + [header]):
+            continue
+        et, ef = cfg.edge_node(st, "true"), cfg.edge_node(st, "false")
+        for a, b in ((et, ef), (ef, et)):
+            goes_round = any(cfg.reaches(a, e, avoiding=vn + rets + ([header] if e != header else [])) for e in ends)
+            validates = any(cfg.reaches(b, v, avoiding=[header]) or b == v for v in vn)
+            if goes_round and validates:
+                why = classify(st.test, st)
+                if why:
+                    bad.append((st, why[0]))
+                break
+    if bad:
+        st, why = bad[0]
+        ctx.ob("R4", "LOOP", f, _T_ONLY_MZ, False,
+               f"a candidate is dropped without being put to the MZ validation, on a test (`{src(st.test)[:80]}`) computed from {why}; detection must locate every stage whose decoded "
+               "content starts with a PE image via the marker, the size field, or both", st)
+    else:
+        ctx.undecided("R4", "LOOP", f, _T_ONLY_MZ, "a candidate can be dropped without being put to the MZ validation; the test that decides it is not computed from the header words, the "
+                      "size-relation candidates or the vote count - whether it can turn a valid stage away is not decided", lp)
+
+
 def r4(ctx):
     f = ctx.repo.func(f"{CLS}.from_file")
     fn = f.node
@@ -3524,6 +3835,7 @@ def r4(ctx):
     if len(loops) != 1 or not cfg.has(loops[0]):
         ctx.undecided("R4", "AGREE", f, t, "cannot locate the loop that tries the candidates (the loop that constructs the XorEncodedFile views)")
         ctx.undecided("R4", "LOOP", f, "a rejected candidate does not end the search", "cannot locate the loop that tries the candidates")
+        ctx.undecided("R4", "LOOP", f, _T_ONLY_MZ, "cannot locate the loop that tries the candidates")
         return
     lp = loops[0]
     # ---- a candidate that fails the MZ validation must not end the search: from the statement that validates a candidate,
@@ -3556,6 +3868,7 @@ def r4(ctx):
     tl = "a rejected candidate does not end the search"
     if not anchors:
         ctx.undecided("R4", "LOOP", f, tl, "no `find_mz_offset(..) is None` validation located inside the candidate loop")
+        ctx.undecided("R4", "LOOP", f, _T_ONLY_MZ, "no `find_mz_offset(..) is None` validation located inside the candidate loop")
     else:
         header = cfg.node(lp)
         rets = [cfg.node(r) for r in cfg.return_stmts()]
@@ -3566,6 +3879,7 @@ def r4(ctx):
                 ends.append(st)
         ctx.ob("R4", "LOOP", f, tl, not ends, "after a candidate without a valid MZ header the next candidate is tried" if not ends else
                "a candidate that fails the MZ validation ends the search (break/raise): a valid candidate ranked behind it is never tried and the stage is rejected", ends[0] if ends else lp)
+        _r4_only_validation_rejects(ctx, f, lp, [st for st, _k in anchors], builds)
     known = ("xordecode.iter_nonce_offsets", "utils.iter_find_needle", "pe.find_mz_offset")
     grown = [c for c in fn_calls(fn) if isinstance(c.func, ast.Attribute) and c.func.attr in ("append", "extend", "update", "add") and isinstance(c.func.value, ast.Name)]
     stores = [st for st in statements(fn) if isinstance(st, (ast.Assign, ast.AugAssign))
